@@ -78,7 +78,7 @@ def gen_policies(ctx, nrand):
 
 
 def run_codec(ctx, want_text):
-    b = lib.standard_build(ctx, theorems=not want_text)   # C09 has theorems (Properties/C09.v); C08's are under proof
+    b = lib.standard_build(ctx)
     if not lib.require_builds(ctx, b):
         return
     r = ctx.rng
